@@ -6,7 +6,7 @@ use crate::gen::*;
 use crate::prog::*;
 use crate::sources::*;
 use crate::c02::{ints_of, wrap, in_ctx, ctx_ok};
-use crate::c16::{Os, os_encode, take_os};
+use crate::c16::{Os, os_encode_forms, take_os};
 use bcder::decode::{BytesSource, Constructed, Source, SliceSource};
 use bcder::Tag;
 
@@ -40,7 +40,7 @@ pub fn source_case(em: &mut Emitter, rng: &mut Rng, mode: u8, ps: &[Prog], data:
     let param = rng.next() % 1000 + 1;
     let mut code = Vec::new(); enc_progs(ps, &mut code);
     let base = run_slice(mode, ps, data);
-    let seg = if kind == 7 { let o = segment(rng, data, 2); let mut t = Vec::new(); os_encode(&o, 0x04, &mut t); Some(t) } else { None };
+    let seg = if kind == 7 { let o = segment(rng, data, 2); let mut t = Vec::new(); os_encode_forms(&o, 0x04, &mut t, rng); Some(t) } else { None };
     em.case(701, &[num_arg(mode), ints_of(&code), bytes_arg(data), num_arg(kind), num_arg(param)], || {
         let obs = match kind {
             0 => observe(mode, ps, SliceSource::new(data), |s| s.len()),
